@@ -16,11 +16,15 @@ package shovel
 //@   ensures [start] result2 == nil && !(exists m uint64 :: old(V_cur[m])) && t.start > 0 ==> result0 == t.start - 1
 //@   ensures [frame] V_cur == old(V_cur) && V_rows == old(V_rows) && V_hash == old(V_hash)
 
-// C03/C04: a reorg removes the pair's positions and rows from block n on, and nothing else.
+// C03/C04: a reorg removes the pair's positions from block n on and every
+// row above the position that remains (all rows if none remains): no row is
+// left beyond the recorded position, whatever batch size wrote the rows.
 //@ func (*Task).Delete props=C03,C04,C02 conn=pg pair=t.srcName,t.destConfig.Name
 //@   requires len(t.dests) > 0
 //@   ensures [cursor] result == nil ==> (forall m uint64 :: V_cur[m] == (old(V_cur[m]) && m < n))
-//@   ensures [rows] result == nil ==> (forall m uint64 :: V_rows[m] == (m >= n ? 0 : old(V_rows[m])))
+//@   ensures [rows-kept] result == nil ==> (forall m uint64 :: V_rows[m] == old(V_rows[m]) || V_rows[m] == 0)
+//@   ensures [rows-not-above-position] result == nil ==> (forall m uint64 :: V_rows[m] != 0 ==> (exists c uint64 :: V_cur[c] && m <= c))
+//@   ensures [rows-below-kept] result == nil ==> (forall m uint64, c uint64 :: V_cur[c] && m <= c ==> V_rows[m] == old(V_rows[m]))
 //@   ensures [hash] V_hash == old(V_hash)
 
 // C01/C02: the position is recorded for the pair, with the given number and hash.
@@ -41,7 +45,7 @@ package shovel
 //@ spec opaque linkedAt(bs []eth.Block, j int) bool = len(bs[j].Header.Parent) == 32 && len(bs[j-1].Header.Hash) == 32 ==> hashof(bs[j].Header.Parent) == hashof(bs[j-1].Header.Hash)
 //@ func (*Task).load props=C01,C03 ghost=none
 //@   requires t.batchSize >= 1 && t.batchSize < 0x100000 && t.concurrency >= 1 && t.concurrency < 0x100000
-//@   requires 1 <= limit && limit <= uint64(t.batchSize) && start < 0x7fffffffffffffff - limit
+//@   requires 1 <= limit && limit <= uint64(t.batchSize) && start < 0x7fffffff00000000
 //@   ensures [count] result1 == nil ==> 1 <= len(result0) && uint64(len(result0)) <= limit
 //@   ensures [numbers] result1 == nil ==> (forall j int :: 0 <= j && j < len(result0) ==> uint64(result0[j].Header.Number) == start + uint64(j))
 //@   ensures [parent] result1 == nil && len(result0[0].Header.Parent) == 32 ==> hashof(result0[0].Header.Parent) == hashof(localHash)
@@ -54,3 +58,49 @@ package shovel
 //@   loop#1 invariant forall k int :: 1 <= k && k < i ==> linkedAt(blocks, k)
 //@   after slices.SortFunc assume len(blocks) == old(len(blocks))
 //@   after slices.SortFunc assume (forall j int :: 0 <= j && j < len(blocks) ==> start <= uint64(old(blocks[j].Header.Number)) && uint64(old(blocks[j].Header.Number)) < start + uint64(len(blocks))) && (forall j int, k int :: 0 <= j && j < k && k < len(blocks) ==> uint64(old(blocks[j].Header.Number)) != uint64(old(blocks[k].Header.Number))) ==> (forall j int :: 0 <= j && j < len(blocks) ==> uint64(blocks[j].Header.Number) == start + uint64(j))
+
+// C01/C02: the rows of exactly the given blocks are added once, on the given connection, or nothing.
+//@ func (*Task).insert props=C01,C02 conn=pg pair=t.srcName,t.destConfig.Name
+//@   requires t.batchSize >= 1 && 1 <= len(blocks) && len(blocks) <= t.batchSize && len(t.dests) >= 1
+//@   requires forall j int, k int :: 0 <= j && j < k && k < len(blocks) ==> uint64(blocks[j].Header.Number) != uint64(blocks[k].Header.Number)
+//@   ensures [rows] result1 == nil ==> (forall m uint64 :: V_rows[m] == old(V_rows[m]) + ((exists j int :: 0 <= j && j < len(blocks) && uint64(blocks[j].Header.Number) == m) ? 1 : 0))
+//@   ensures [rows-consecutive] result1 == nil && (forall j int :: 0 <= j && j < len(blocks) ==> uint64(blocks[j].Header.Number) == uint64(blocks[0].Header.Number) + uint64(j)) ==> (forall m uint64 :: V_rows[m] == old(V_rows[m]) + ((m - uint64(blocks[0].Header.Number) < uint64(len(blocks))) ? 1 : 0))
+//@   ensures [err] result1 != nil ==> V_rows == old(V_rows)
+//@   ensures [frame] V_cur == old(V_cur) && V_hash == old(V_hash)
+//@   loop#0 invariant i == 0 || i >= len(blocks)
+//@   loop#0 invariant i == 0 ==> V_rows == old(V_rows) && egerr(eg) == nil
+//@   loop#0 invariant i != 0 && egerr(eg) != nil ==> V_rows == old(V_rows)
+//@   loop#0 invariant i != 0 && egerr(eg) == nil && (forall j int :: 0 <= j && j < len(blocks) ==> uint64(blocks[j].Header.Number) == uint64(blocks[0].Header.Number) + uint64(j)) ==> (forall m uint64 :: V_rows[m] == old(V_rows[m]) + ((m - uint64(blocks[0].Header.Number) < uint64(len(blocks))) ? 1 : 0))
+//@   loop#0 invariant i != 0 && egerr(eg) == nil ==> (forall m uint64 :: V_rows[m] == old(V_rows[m]) + ((exists j int :: 0 <= j && j < len(blocks) && uint64(blocks[j].Header.Number) == m) ? 1 : 0))
+
+// Protocol invariant of the pair's committed state (C01, C02, C06):
+// rows lie at or below a recorded position, no block's rows are present twice,
+// positions stay within [start-1, stop].
+//@ spec notAbove(cur curset, rows rowmap) bool = forall n uint64 :: rows[n] != 0 ==> (exists c uint64 :: cur[c] && n <= c)
+//@ spec atMostOnce(rows rowmap) bool = forall n uint64 :: 0 <= rows[n] && rows[n] <= 1
+//@ spec inRange(cur curset, start uint64, stop uint64) bool = forall c uint64 :: cur[c] ==> c + 1 >= start && c < 0x7fffffff00000000 && (stop > 0 ==> c <= stop)
+
+// Converge: the committed state changes only at the two Commit calls; what
+// each publishes is constrained by the commit clauses (checked on the working
+// copy W against the committed state D at that moment), for every batch size,
+// concurrency, start/stop, head, dependency position and failure point.
+//@ func (*Task).Converge props=C01,C02,C03,C04,C05,C06 ghost=db pair=task.srcName,task.destConfig.Name
+//@   requires task.batchSize >= 1 && task.batchSize < 0x100000 && task.concurrency >= 1 && task.concurrency < 0x100000 && len(task.dests) >= 1 && task.start < 0x4000000000000000
+//@   requires notAbove(D_cur, D_rows) && atMostOnce(D_rows) && inRange(D_cur, task.start, task.stop)
+//@   commit @C06 [range] inRange(W_cur, task.start, task.stop)
+//@   commit @C06 [rows-range] forall m uint64 :: W_rows[m] > D_rows[m] ==> m >= task.start && (task.stop > 0 ==> m <= task.stop)
+//@   commit @C05 [dep-bound] len(task.destConfig.Dependencies) > 0 ==> (forall m uint64 :: W_cur[m] && !D_cur[m] ==> m <= depMinStarted)
+//@   commit @C05 [dep-all-started] len(task.destConfig.Dependencies) > 0 ==> (forall m uint64 :: W_cur[m] && !D_cur[m] ==> depAll)
+//@   commit#1 @C03,C02 [unwind-only] (forall m uint64 :: W_cur[m] ==> D_cur[m]) && (forall m uint64 :: W_rows[m] <= D_rows[m])
+//@   commit#2 @C01,C02 [position] forall m uint64 :: W_cur[m] == (D_cur[m] || m == localNum + uint64(len(blocks)))
+//@   commit#2 @C01 [from-top] forall c uint64 :: D_cur[c] ==> c <= localNum
+//@   commit#2 @C01,C02 [rows] forall m uint64 :: W_rows[m] == D_rows[m] + ((localNum < m && m <= localNum + uint64(len(blocks))) ? 1 : 0)
+//@   commit#2 @C01,C03 [hash] W_hash[localNum + uint64(len(blocks))] == hashof(blocks[len(blocks)-1].Header.Hash)
+//@   ensures [inv] notAbove(D_cur, D_rows) && atMostOnce(D_rows) && inRange(D_cur, task.start, task.stop)
+//@   ensures @C06 [done] iserr(result, ErrDone) ==> task.stop > 0 && D_cur == old(D_cur) && D_rows == old(D_rows)
+//@   ensures @C02 [error-keeps-inv] result != nil ==> nCommits <= 1
+//@   loop#0 invariant txOpen
+//@   loop#0 invariant [w-in-range] inRange(W_cur, task.start, task.stop)
+//@   loop#0 invariant [w-once] atMostOnce(W_rows)
+//@   loop#0 invariant [w-subset] (forall m uint64 :: W_cur[m] ==> D_cur[m]) && (forall m uint64 :: W_rows[m] <= D_rows[m]) && (forall m uint64 :: W_cur[m] ==> W_hash[m] == D_hash[m])
+//@   loop#0 invariant [w-rows-not-above-position] notAbove(W_cur, W_rows)
